@@ -10,17 +10,14 @@ package codegen
 //@   opt inline none
 //@   property C09
 //@   ensures* user.owned.file: result != nil ==> result.SkipExist
-//@   modifies all
 //@ func exampleServer
 //@   opt inline none
 //@   property C09
 //@   ensures* user.owned.file: result != nil ==> result.SkipExist
-//@   modifies all
 //@ func dummyMultipartFile
 //@   opt inline none
 //@   property C09
 //@   ensures* user.owned.file: result != nil ==> result.SkipExist
-//@   modifies all
 
 // ---- generated output does not depend on map iteration order (C09) --------------------------------
 // Every function of this package that ranges over a map is either proved independent of the iteration order
@@ -32,4 +29,3 @@ package codegen
 //@   opt inline none
 //@   opt loopframes none
 //@   property C09
-//@   modifies all
